@@ -152,6 +152,7 @@ func c14body(ri *simcheck.RunInfo, s C14Scenario) {
 		ri.Violations = append(ri.Violations, &simcheck.Violation{Property: "C14", Oracle: oracle, Signature: sig, Detail: detail})
 	}
 	var first, afterHist, interleaved []string
+	byPosition := false
 	var tickSQL [][]string
 	done := make(chan struct{})
 	sim.Spawn("client", func() {
@@ -159,6 +160,7 @@ func c14body(ri *simcheck.RunInfo, s C14Scenario) {
 		// (a) first
 		st.client(sys, 0, []Req{s.Subject})
 		first = canonList(st.reqs[len(st.reqs)-1].Stmts)
+		byPosition = st.reqs[len(st.reqs)-1].ByPosition
 		// (b) after a history of other translations
 		st.client(sys, 0, s.History)
 		st.client(sys, 0, []Req{s.Subject})
@@ -172,6 +174,9 @@ func c14body(ri *simcheck.RunInfo, s C14Scenario) {
 	case <-sim.Killed():
 	}
 	// (c) interleaved with concurrent translations
+	st.mu.Lock()
+	st.concurrent = true
+	st.mu.Unlock()
 	var wg sync.WaitGroup
 	var subj *reqRec
 	wg.Add(1)
@@ -260,7 +265,12 @@ func c14body(ri *simcheck.RunInfo, s C14Scenario) {
 			add("sql-depends-on-history", "same request translates differently after other translations: "+s.Subject.Kind+" "+classOfQuery(s.Subject.Query),
 				fmt.Sprintf("request %s query=%q: statement #%d differs between the first translation and the one after %d other requests: %s", s.Subject.Kind, s.Subject.Query, i, len(s.History), short(x, y)))
 		}
-		if subj != nil && subj.Returned {
+		if byPosition {
+			// the endpoint does not carry the request context to its statements: under concurrency
+			// they cannot be attributed to a request, so (c) is not judged for it
+			ri.Probes["c14-unattributable-"+s.Subject.Kind]++
+		}
+		if subj != nil && subj.Returned && !byPosition {
 			if i, x, y := diff(first, interleaved); i >= 0 {
 				add("sql-depends-on-interleaving", "same request translates differently when interleaved with other translations: "+s.Subject.Kind+" "+classOfQuery(s.Subject.Query),
 					fmt.Sprintf("request %s query=%q: statement #%d differs when %d other requests run concurrently: %s", s.Subject.Kind, s.Subject.Query, i, len(s.Parallel), short(x, y)))
